@@ -12,6 +12,7 @@ package header
 
 //@ func verify(trstd, untrstd)
 //@   props C01
+//@   zerosafe
 //@   modifies $now
 //@   ensures [C01] accept: result == nil <==> mand(trstd, untrstd, now)
 //@   ensures [C01] plain: result != nil ==> asVerr(result) == nil
@@ -20,6 +21,7 @@ package header
 
 //@ func Verify(trstd, untrstd)
 //@   props C01
+//@   zerosafe
 //@   ghost tv := result of invoke Verify #0
 //@   modifies $now, VerifyError.SoftFailure
 //@   ensures [C01] accept: result == nil <==> (mand(trstd, untrstd, now) && tv == nil)
@@ -33,6 +35,7 @@ package header
 
 //@ func VerifyRange(trstd, untrstdRange)
 //@   props C02
+//@   zerosafe
 //@   modifies $now, VerifyError.SoftFailure
 //@   ensures [C02] empty: len(untrstdRange) == 0 ==> result1 != nil && errors.Is(result1, ErrEmptyRange) && len(result0) == 0
 //@   ensures [C02] prefix: len(result0) <= len(untrstdRange) && forall k int :: 0 <= k && k < len(result0) ==> result0[k] == old(untrstdRange[k])
